@@ -226,6 +226,8 @@ class Verifier:
                 self.run_path(c, fr, run, relpath, qual, fnode, ci)
             except E.PathEnd:
                 fr.pruned += 1
+                if os.environ.get("PYVC_DEBUG"):
+                    print("PRUNED", " ; ".join(run.trace))
             except E.Unsupported as u:
                 fr.unsupported.append(f"{u} @ {' ; '.join(run.trace[-3:])}")
             except z3.Z3Exception as ze:
@@ -315,6 +317,11 @@ class Verifier:
             frame_locals["self"] = selfv
         for name, ty in self.param_types(I, c, fnode, relpath):
             frame_locals[name] = I.fresh(ty, name)
+        for name, t in (c.options.get("closure") or {}).items():
+            # free variables of a nested function: arbitrary values of the declared types (more general than any enclosing call)
+            frame_locals[name] = I.fresh(parse_type(t), name)
+            if name == "self":
+                selfv = frame_locals[name]
         ghost_vals = {g: I.fresh(parse_type(t), g) for g, t in c.ghost_params.items()}
         if fnode.args.vararg is not None:
             frame_locals[fnode.args.vararg.arg] = VTuple([])
@@ -346,6 +353,7 @@ class Verifier:
             run.ghost[g] = self.eval_spec(I, init, sframe)
         # ---- assumptions: config, invariants, requires
         tracked = [(n, v) for n, v in frame_locals.items() if isinstance(v, VRef) and v.kind == "obj"]
+        frame_locals_forced = None
         if c.is_init:
             tracked = [(n, v) for n, v in tracked if n != "self"]
         I.tracked = tracked
@@ -374,6 +382,8 @@ class Verifier:
         except E.PyExc as pe:
             exc = pe
         fr.paths += 1
+        if os.environ.get("PYVC_DEBUG"):
+            print("EXIT", result, exc, " ; ".join(run.trace))
         if c.is_init:
             I.tracked = [("self", selfv)] + tracked
         self.check_exit(I, c, fr, run, sframe, result, exc)
@@ -459,6 +469,16 @@ class Verifier:
                     if nv is None:
                         continue
                     ov = I.getattr(run.old_view(v), f)
+                if isinstance(nv, VOpt) and isinstance(ov, VOpt) and nv.name == ov.name:
+                    # both sides still hold the (lazily resolved) pre-state value of this field
+                    inner = nv.forced if nv.forced is not None else ov.forced
+                    if isinstance(inner, VRef) and run.base_oid(inner.oid) in run.written:
+                        ctx.oblige(I, "frame", path + "[contents]", z3.BoolVal(False), "container mutated", True,
+                                   text=f"{path} contents unchanged")
+                    else:
+                        ctx.oblige(I, "frame", path, z3.BoolVal(True), "", True, text=f"{path} unchanged")
+                    continue
+                nv, ov = I.force(nv), I.force(ov)
                 if isinstance(nv, VRef) or isinstance(ov, VRef):
                     same = isinstance(nv, VRef) and isinstance(ov, VRef) and run.base_oid(nv.oid) == run.base_oid(ov.oid)
                     ctx.oblige(I, "frame", path, z3.BoolVal(bool(same)), "field rebound", True, text=f"{path} unchanged")
@@ -559,7 +579,11 @@ class Verifier:
                     f.locals.update(extra)
                     a = I.truthy(I.eval(node.args[0], f))
                     fr.covers[key] = bool(I.run.feasible(a)) or fr.covers.get(key, False)
-                except (E.PyExc, E.Unsupported):
+                    if os.environ.get("PYVC_DEBUG"):
+                        print("cover", key, a, fr.covers[key])
+                except (E.PyExc, E.Unsupported) as ex_:
+                    if os.environ.get("PYVC_DEBUG"):
+                        print("cover", key, "raised", repr(ex_))
                     fr.covers.setdefault(key, False)
                 finally:
                     I.pure -= 1
